@@ -283,70 +283,54 @@ def _by_path(ctx, prog):
                 path.args[0] == "Add" and any(
                     is_call_to(x, "numpy.linalg.norm") for x in
                     path.args[2].walk())
-            prev = [v for k, v in r.env_all.items() if v.op == "loopout" and
-                    v.args[1] == lid and v.args[3].op == "elem"]
             TR_ = T("tuple", T("slice", tm.NONE, const(3), tm.NONE),
                     const(3))
-            whyp = "step term not recognised"
-            if okp and len(prev) == 1 and prev[0].args[3].args[0] is not \
-                    POSES and _per_pose_source(prev[0].args[3].args[0]):
-                # the loop carries the previous *position* (poses were
-                # reduced to their translations before the loop)
-                pv = prev[0]
-                pvar = T("loopvar", pv.args[0], lid, pv.args[2])
-                cur_raw = pv.args[3]
-                nrm = [x for x in path.args[2].walk()
-                       if is_call_to(x, "numpy.linalg.norm")]
-                d = nrm[0].args[1][0] if len(nrm) == 1 and nrm[0].args[1] \
-                    else None
-                init_ok = index_comp(pv.args[2]) is tm.sub(
-                    tm.sub(POSES, const(0)), TR_)
-                cur_ok = fuse_elems(cur_raw) is tm.sub(
-                    T("elem", POSES, lid), TR_)
-                diff_ok = d is not None and d.op == "binop" and \
-                    d.args[0] == "Sub" and {d.args[1], d.args[2]} == {
-                        cur_raw, pvar}
-                okp = init_ok and cur_ok and diff_ok
-                whyp = (f"previous position starts as {fmt(pv.args[2])[:60]}"
-                        if not init_ok else f"step is {fmt(d)[:90]}")
-                ctx.ob("C10.4", f, okp,
+            POSE0, CUR = tm.sub(POSES, const(0)), T("elem", POSES, lid)
+            nrm = [x for x in path.args[2].walk()
+                   if is_call_to(x, "numpy.linalg.norm")] if okp else []
+            d = nrm[0].args[1][0] if len(nrm) == 1 and nrm[0].args[1] \
+                else None
+            # the variable that remembers the previous pose — as the pose
+            # itself or as its position (taken inside or before the loop)
+            verdict, whyp = None, "step term not recognised"
+            for k, pv in r.env_all.items():
+                if pv.op != "loopout" or pv.args[1] != lid or k == name:
+                    continue
+                init_, upd_ = pv.args[2], pv.args[3]
+                pvar = T("loopvar", pv.args[0], lid, init_)
+                if d is None or not (d.op == "binop" and d.args[0] == "Sub"
+                                     and any(z in (pvar, tm.sub(pvar, TR_))
+                                             for z in (d.args[1],
+                                                       d.args[2]))):
+                    continue
+                other = d.args[2] if d.args[1] in (
+                    pvar, tm.sub(pvar, TR_)) else d.args[1]
+                if init_ is POSE0 and upd_ is CUR:
+                    # pose carried: |t(cur) - t(prev)|
+                    verdict = {d.args[1], d.args[2]} == {
+                        tm.sub(CUR, TR_), tm.sub(pvar, TR_)}
+                    whyp = f"step is {fmt(d)[:90]}"
+                elif index_comp(fuse_elems(init_)) is tm.sub(POSE0, TR_) and \
+                        fuse_elems(upd_) is tm.sub(CUR, TR_):
+                    # position carried: |p(cur) - p(prev)|
+                    verdict = fuse_elems(other) is tm.sub(CUR, TR_)
+                    whyp = f"step is {fmt(d)[:90]}"
+                else:
+                    verdict = False
+                    whyp = (f"previous pose starts as {fmt(init_)[:50]} and "
+                            f"becomes {fmt(upd_)[:50]}")
+                break
+            if verdict is None:
+                ctx.undecidable("C10.4", f, f"meters/consecutive: {whyp}: "
+                                f"{fmt(path)[:120]}")
+            else:
+                ctx.ob("C10.4", f, verdict,
                        "meters/consecutive: each step adds |t_i - t_(i-1)|, "
                        "the distance to the immediately preceding pose "
-                       "(starting from pose 0)" if okp else
+                       "(starting from pose 0)" if verdict else
                        f"meters/consecutive: the accumulated quantity is not "
                        f"the travelled path |t_i - t_(i-1)|: {whyp}",
                        key="C10.4:path:step")
-                okp = None
-            else:
-                okp = okp and len(prev) == 1 and \
-                    prev[0].args[3].args[0] is POSES
-            if okp:
-                # |t(cur) - t(prev)| with prev_0 = poses[0], prev := cur
-                pv = prev[0]
-                cur = pv.args[3]
-                pvar = T("loopvar", pv.args[0], lid, pv.args[2])
-                TR = T("tuple", T("slice", tm.NONE, const(3), tm.NONE),
-                       const(3))
-                step = path.args[2]
-                nrm = [x for x in step.walk()
-                       if is_call_to(x, "numpy.linalg.norm")]
-                d = nrm[0].args[1][0] if len(nrm) == 1 and nrm[0].args[1] \
-                    else None
-                init_ok = pv.args[2] is tm.sub(POSES, const(0))
-                diff_ok = d is not None and d.op == "binop" and \
-                    d.args[0] == "Sub" and {d.args[1], d.args[2]} == {
-                        tm.sub(cur, TR), tm.sub(pvar, TR)}
-                okp = init_ok and diff_ok
-                whyp = (f"previous pose starts as {fmt(pv.args[2])}"
-                        if not init_ok else f"step is {fmt(d)[:90]}")
-            if okp is not None:
-              ctx.ob("C10.4", f, okp,
-                   "meters/consecutive: each step adds |t_i - t_(i-1)|, the "
-                   "distance to the immediately preceding pose (starting "
-                   "from pose 0)" if okp else
-                   f"meters/consecutive: the accumulated quantity is not the "
-                   f"travelled path |t_i - t_(i-1)|: {whyp}",
-                   key="C10.4:path:step")
     # ---------------- all pairs
     r = Interp(prog).run(f, dict(extra, all_pairs=const(True)))
     apps = [e for e in r.of_kind("call") if e.data.get("mutates_recv")
